@@ -21,6 +21,7 @@ import (
 	"math/rand"
 	"net"
 	"net/http"
+	"runtime/debug"
 	"sort"
 	"strings"
 	"sync"
@@ -52,11 +53,47 @@ type stressRec struct {
 	Fetch   string `json:"fetch"`  // verify: direct (default) | perspective: a PerspectiveKeyFetcher in front of the DirectKeyFetcher
 }
 
+// A panic in one of the goroutines of a case is an outcome of the case (the process would otherwise die with it
+// and the run would end as a machinery error): it is caught where the goroutine was started and reported with
+// the innermost library function on the panicking stack.
+type panicBox struct {
+	mu   sync.Mutex
+	what string
+	fn   string
+}
+
+var stressPanics panicBox
+
+func (b *panicBox) catch() {
+	if e := recover(); e != nil {
+		st := debug.Stack()
+		b.mu.Lock()
+		if b.what == "" {
+			b.what, b.fn = fmt.Sprintf("%v\n%s", e, libFrames(st)), innermostLibFunc(st)
+		}
+		b.mu.Unlock()
+	}
+}
+
 func stressCase(raw json.RawMessage) hx.Result {
 	var r stressRec
 	if err := json.Unmarshal(raw, &r); err != nil {
 		panic(err)
 	}
+	stressPanics.mu.Lock()
+	stressPanics.what, stressPanics.fn = "", ""
+	stressPanics.mu.Unlock()
+	res := stressDispatch(r)
+	stressPanics.mu.Lock()
+	defer stressPanics.mu.Unlock()
+	if stressPanics.what != "" {
+		return hx.Result{OK: false, Key: "C19/stress/" + r.Case + "/panic/" + stressPanics.fn,
+			What: fmt.Sprintf("%d goroutines on one shared object: panic in a goroutine of the case: %s", r.K, stressPanics.what)}
+	}
+	return res
+}
+
+func stressDispatch(r stressRec) hx.Result {
 	switch r.Case {
 	case "events":
 		return stressEvents(r)
@@ -68,6 +105,8 @@ func stressCase(raw json.RawMessage) hx.Result {
 		return stressTransport(r)
 	case "transport1":
 		return stressTransportFirstUse(r)
+	case "transportreap":
+		return stressTransportReaper(r)
 	}
 	panic("unknown stress case " + r.Case)
 }
@@ -246,6 +285,7 @@ func stressEvents(r stressRec) hx.Result {
 			wg.Add(1)
 			go func(g int) {
 				defer wg.Done()
+				defer stressPanics.catch()
 				<-start
 				got[g] = readAccessors(ops, ev, (g*7+round)%len(ops))
 			}(g)
@@ -483,6 +523,7 @@ func stressVerify(r stressRec) hx.Result {
 			wg.Add(1)
 			go func(g int) {
 				defer wg.Done()
+				defer stressPanics.catch()
 				<-start
 				got[g] = renderVerify(ring.VerifyJSONs(context.Background(), batches[g]))
 			}(g)
@@ -568,6 +609,7 @@ func stressDNS(r stressRec) hx.Result {
 		wg.Add(1)
 		go func(g int) {
 			defer wg.Done()
+			defer stressPanics.catch()
 			rng := rand.New(rand.NewSource(r.Seed*1000 + int64(g)))
 			<-start
 			for i := 0; i < r.Rounds; i++ {
@@ -625,6 +667,7 @@ func stressTransport(r stressRec) hx.Result {
 		wg.Add(1)
 		go func(g int) {
 			defer wg.Done()
+			defer stressPanics.catch()
 			rng := rand.New(rand.NewSource(r.Seed*1000 + int64(g)))
 			<-start
 			for i := 0; i < r.Rounds; i++ {
@@ -671,6 +714,7 @@ func stressTransportFirstUse(r stressRec) hx.Result {
 			wg.Add(1)
 			go func(g int) {
 				defer wg.Done()
+				defer stressPanics.catch()
 				<-start
 				got[g] = tripper.GetTransport(name)
 			}(g)
@@ -692,4 +736,61 @@ func stressTransportFirstUse(r stressRec) hx.Result {
 		}
 	}
 	return hx.Result{OK: true, NT: fmt.Sprintf("transport first use k=%d", r.K)}
+}
+
+// stressTransportReaper: reaper passes in goroutines of their own (the timer goroutine of the library, at an
+// arbitrary rate) next to k goroutines that each make the FIRST use of fresh TLS names, use them again and let
+// them age.  Whatever the interleaving, a pass must find every transport of the map stamped (a pass that panics
+// is the failure) and every caller must be handed a complete transport.
+func stressTransportReaper(r stressRec) hx.Result {
+	tripper := fclient.VerifC19NewTripper(true, nil, false)
+	var stop int32
+	var mu sync.Mutex
+	var failure *hx.Result
+	var reapers, users sync.WaitGroup
+	for g := 0; g < 2; g++ {
+		reapers.Add(1)
+		go func() {
+			defer reapers.Done()
+			defer stressPanics.catch()
+			for n := 0; atomic.LoadInt32(&stop) == 0 && n < 200000; n++ {
+				tripper.Reaper()
+			}
+		}()
+	}
+	start := make(chan struct{})
+	for g := 0; g < r.K; g++ {
+		users.Add(1)
+		go func(g int) {
+			defer users.Done()
+			defer stressPanics.catch()
+			rng := rand.New(rand.NewSource(r.Seed*1000 + int64(g)))
+			<-start
+			for i := 0; i < r.Rounds; i++ {
+				n := fmt.Sprintf("g%d-%d.c19.test:8448", g, i)
+				for use := 0; use < 1+rng.Intn(2); use++ {
+					d := fclient.VerifC19Describe(n, tripper.GetTransport(n))
+					if !d.Inited || !d.HasUsed || d.ServerName != n {
+						mu.Lock()
+						if failure == nil {
+							failure = &hx.Result{OK: false, Key: "C19/stress/transport/half-initialised",
+								What: fmt.Sprintf("getTransport(%q) handed out a transport with initialised=%v lastUsed stored=%v TLS ServerName=%q", n, d.Inited, d.HasUsed, d.ServerName)}
+						}
+						mu.Unlock()
+					}
+				}
+				if rng.Intn(2) == 0 {
+					tripper.SetLastUsed(n, time.Now().Add(-time.Hour)) // the entry ages: a later pass deletes it
+				}
+			}
+		}(g)
+	}
+	close(start)
+	users.Wait()
+	atomic.StoreInt32(&stop, 1)
+	reapers.Wait()
+	if failure != nil {
+		return *failure
+	}
+	return hx.Result{OK: true, NT: fmt.Sprintf("transport reaper passes next to first uses k=%d", r.K)}
 }
